@@ -1759,7 +1759,8 @@ size_t ZSTD_estimateCCtxSize_usingCCtxParams(const ZSTD_CCtx_params* params)
     ldmParams_t ldmParams = params->ldmParams;
 
     RETURN_ERROR_IF(params->nbWorkers > 0, GENERIC, "Estimate CCtx size is supported for single-threaded compression only.");
-    /* resolve the ldm defaults (minMatchLength, hashLog, ...) exactly like the compressor does before sizing its workspace */
+    /* resolve the automatic mode and the ldm defaults (minMatchLength, hashLog, ...) exactly like the compressor does before sizing its workspace */
+    ldmParams.enableLdm = ZSTD_resolveEnableLdm(ldmParams.enableLdm, &cParams);
     if (ldmParams.enableLdm == ZSTD_ps_enable) ZSTD_ldm_adjustParameters(&ldmParams, &cParams);
     /* estimateCCtxSize is for one-shot compression. So no buffers should
      * be needed. However, we still allocate two 0-sized buffers, which can
@@ -1833,6 +1834,8 @@ size_t ZSTD_estimateCStreamSize_usingCCtxParams(const ZSTD_CCtx_params* params)
                 : 0;
         ZSTD_paramSwitch_e const useRowMatchFinder = ZSTD_resolveRowMatchFinderMode(params->useRowMatchFinder, &cParams);
         ldmParams_t ldmParams = params->ldmParams;
+        /* the compressor switches long-distance matching on by itself for the strongest strategies with large windows */
+        ldmParams.enableLdm = ZSTD_resolveEnableLdm(ldmParams.enableLdm, &cParams);
         if (ldmParams.enableLdm == ZSTD_ps_enable) ZSTD_ldm_adjustParameters(&ldmParams, &cParams);
 
         return ZSTD_estimateCCtxSize_usingCCtxParams_internal(
